@@ -176,6 +176,30 @@ static void c03_phase(int G, int k, bool ortho, double buf, bool touchingWithBuf
     });
 }
 
+
+// connectors with a routing CHECKPOINT (whose arrival directions may be restricted): the route is searched leg by leg, with the checkpoint's visibility
+// switched per leg.  Whether the checkpoint is visited is C11's business; here only the C03 clauses: joins its endpoints, stays out of the shapes.
+// Every scene x every checkpoint position x every 3rd endpoint pair x arrival directions {all, left, up} (departure unrestricted).
+static void c03_checkpoint_phase(int G, int k, bool ortho) {
+    vector<Poly> alpha = shape_alphabet(G, false);
+    ctx.phase(mcx::fmt("C03 %s G=%d shapes=%d, one connector with a checkpoint at every free point, arrival directions {all, left, up}", ortho ? "orthogonal" : "polyline", G, k));
+    for_scenes(alpha, k, 0, false, [&](const vector<Poly> &sc) {
+        if (!ctx.next()) return;
+        vector<P> fr = free_points(sc, G); vector<Poly> scS = scaled(sc); ctx.count("states"); ctx.sample(string(ortho ? "orthogonal" : "polyline") + " checkpoint " + scene_str(sc));
+        static const unsigned AD[3] = {Avoid::ConnDirAll, Avoid::ConnDirLeft, Avoid::ConnDirUp};
+        try { size_t cnt = 0;
+            for (size_t a = 0; a < fr.size(); a++) for (size_t b = a + 1; b < fr.size(); b++) { if ((cnt++ % 3) != 0) continue;
+                for (size_t c = 0; c < fr.size(); c++) { if (c == a || c == b) continue; for (int ad = 0; ad < 3; ad++) {
+                    Avoid::Router *r = mk_router(ortho, ortho ? 10 : 0, 0, sc); Avoid::ConnRef *cn = mk_conn(r, fr[a], fr[b]);
+                    std::vector<Avoid::Checkpoint> cps; cps.push_back(Avoid::Checkpoint(Avoid::Point(fr[c].x * S, fr[c].y * S), (Avoid::ConnDirFlags)AD[ad], Avoid::ConnDirAll)); cn->setRoutingCheckpoints(cps);
+                    r->processTransaction();
+                    judge_valid(sc, scS, fr[a], fr[b], cn->displayRoute(), ortho, G, mcx::fmt("%s checkpoint (%lld,%lld) arrival=%u", ortho ? "orthogonal" : "polyline", fr[c].x, fr[c].y, AD[ad]), {});
+                    delete r; } } }
+        } catch (vpsc::CriticalFailure &f) { ctx.library_abort(f.what(), string(ortho ? "orthogonal" : "polyline") + " checkpoint scene " + scene_str(sc)); }
+        ctx.done_case();
+    });
+}
+
 // scenes of k rectangles created in EVERY order (shapes are added one after the other inside the first transaction, and
 // what a later shape blocks is decided by a different code path than the sweep that computes visibility for a new shape)
 static void c03_orders_phase(int G, int k, int epStep) {
@@ -652,6 +676,7 @@ int main(int argc, char **argv) {
         for (int no = 0; no < 5; no++) c03_pinpair_phase(4, no, 0);
         c03_pinpair_phase(4, 2, 4);
         c03_cbend_phase(4, 1); c03_cbend_phase(5, 1); c03_cbend_phase(4, 2);
+        for (int ortho = 0; ortho < 2; ortho++) { c03_checkpoint_phase(3, 1, ortho); c03_checkpoint_phase(4, 1, ortho); c03_checkpoint_phase(3, 2, ortho); }
         if (T) { c03_cbend_phase(6, 1); c03_cbend_phase(5, 2); for (int no = 1; no < 4; no++) c03_pinpair_phase(5, no, 0); }
         if (T) { c03_orders_phase(3, 3, 1); c03_orders_phase(4, 2, 1); c03_phase(4, 2, true, 0, false); c03_phase(4, 2, false, 0, false); c03_phase(3, 3, true, 0, false); c03_phase(3, 3, false, 0, false); c03_phase(4, 2, true, 2, false); }
     } else if (PROP == "C04") {
